@@ -10,6 +10,7 @@ package consensus
 
 import (
 	"fmt"
+	"os"
 	"sort"
 	"testing"
 	"time"
@@ -57,6 +58,9 @@ func c04Env(scenario string) *rtEnv {
 			return e
 		}
 		if scenario == "lock" && !isP0 && !isP1 {
+			return e
+		}
+		if scenario == "nilfirst" && !isP0 && !isP1 {
 			return e
 		}
 		if (scenario == "lock2" || scenario == "lock3") && !isP0 && !isP1 {
@@ -286,6 +290,14 @@ func (d *c04Driver) script(name string) {
 			func() bool { return d.votes(pre, 2, "", 2) },
 			d.timeout, // prevote-wait -> precommit nil
 		},
+		// nothing arrives in time: the node prevotes and precommits nil in round 0 (two adversarial nil votes complete the quorums)
+		"nilfirst": {
+			d.timeout,
+			d.timeout, // propose timeout -> prevote nil
+			func() bool { return d.votes(pre, 0, "", 2) },
+			func() bool { return d.votes(com, 0, "", 2) },
+			d.timeout,
+		},
 		// after a restart: the proposer equivocates — the other block, with a polka and precommits for it
 		"other": {
 			d.timeout,
@@ -422,6 +434,12 @@ func c04Run(c c04Case) (res c04Result) {
 			res.signedN++
 		}
 	}
+	if os.Getenv("C04_DEBUG") != "" {
+		for _, x := range signed {
+			fmt.Printf("DEBUG inc%d %s h%d r%d s%d block=%.12s\n", x.Inc, x.Kind, x.H, x.R, x.Step, x.Block)
+		}
+		fmt.Printf("DEBUG journals=%v refused=%v\n", res.journals, res.refused)
+	}
 	res.key, res.what = c04Judge(signed)
 	return
 }
@@ -429,9 +447,9 @@ func c04Run(c c04Case) (res c04Result) {
 func TestVerifC04(t *testing.T) {
 	r := vr.Start("C04", "signer", 140*time.Second, 22*time.Minute)
 	defer r.Finish()
-	r.Rule = "two delivery schedules of one height (lock in round 0 then a different commit in round 1; node as proposer) are journalled; every journal entry (WAL append/fsync/rotation-free, " +
+	r.Rule = "three delivery schedules of one height (lock in round 0 then a different commit in round 1; node as proposer; nothing arrives and the node votes nil) are journalled; every journal entry (WAL append/fsync/rotation-free, " +
 		"sign-state temp-file create/write/rename, DB write) is a crash point; the unsynced WAL tail is kept, dropped or cut at every byte; after the restart the adversary continues with " +
-		"{the same messages, the other proposal with a polka and precommits for it, timeouts first}; thorough nests a second crash in the recovery; a case = (schedule, crash vector, tail, continuation); " +
+		"{the same messages, the other proposal with a polka and precommits for it, timeouts first; for the nil schedule: a proposal with its quorums}; thorough nests a second crash in the recovery; a case = (schedule, crash vector, tail, continuation); " +
 		"all cases distinct; non-trivial = at least one crash"
 	r.Assume("stub validators' keys are the harness's; the wall clock advances by one second per incarnation so that a re-signed vote would differ in timestamp")
 	r.Assume("storage model as in DESIGN §3.3")
@@ -470,7 +488,7 @@ func TestVerifC04(t *testing.T) {
 		return res
 	}
 	k := 0
-	for _, sc := range []string{"lock", "proposer"} {
+	for _, sc := range []string{"lock", "proposer", "nilfirst"} {
 		ref := c04Run(c04Case{Scenario: sc, Tail: -1, After: "same"})
 		if ref.key != "" {
 			r.Violation(ref.key, ref.what, c04Case{Scenario: sc, Tail: -1, After: "same"})
@@ -479,7 +497,12 @@ func TestVerifC04(t *testing.T) {
 		n0 := ref.journals[0]
 		r.Set("journal_"+sc, n0)
 		for cp := ref.prep + 1; cp < n0; cp++ {
-			for _, after := range []string{"same", "other", "timeouts"} {
+			afters := []string{"same", "other", "timeouts"}
+			if sc == "nilfirst" {
+				// the node signed nil votes before the crash; afterwards the proposal and its quorums do arrive in time
+				afters = []string{"same", "lock", "other"}
+			}
+			for _, after := range afters {
 				k++
 				if !r.Mine(k) {
 					continue
